@@ -240,6 +240,20 @@ def apis():
         st["armed"] = True
         g.compute(progress_type="rec")
 
+    def again(fail_at):
+        # calls with nothing left to do: a finished object asked again (the brackets of every call close on its ordinary return path)
+        g = oqupy.GibbsTempo(oqupy.System(0.3 * oqupy.operators.sigma("x")), oqupy.Bath(np.diag([1.0, -0.5]), oqupy.PowerLawSD(alpha=0.1, zeta=1, cutoff=3.0,
+                             cutoff_type="exponential", temperature=0.7)), oqupy.GibbsParameters(n_steps=5, epsrel=1e-6))
+        g.compute(progress_type="rec")
+        g.compute(progress_type="rec")
+        t = oqupy.Tempo(oqupy.System(0.3 * oqupy.operators.sigma("x")), bath, par, rho, 0.0)
+        t.compute(0.3, progress_type="rec")
+        t.compute(0.3, progress_type="rec")
+        p_ = oqupy.PtTempo(bath, 0.0, 0.3, par)
+        p_.compute(progress_type="rec")
+        p_.compute(progress_type="rec")
+        oqupy.compute_dynamics(oqupy.System(0.3 * oqupy.operators.sigma("x")), initial_state=rho, process_tensor=pt, num_steps=0, progress_type="rec")
+
     def meanfield(fail_at):
         st, tick = counted(fail_at)
         def eom(t, states, a):
@@ -401,6 +415,7 @@ def apis():
             raise Boom() from ex
 
     return [("compute_dynamics(bad cap tensor)", False, dyn_caps, [1, 2, 3, 4]), ("compute_dynamics_with_field(bad cap tensor)", False, field_caps, [1, 2, 3, 4]),
+            ("calls with nothing left to do (GibbsTempo, Tempo, PtTempo asked again; compute_dynamics over zero steps)", True, again, False),
             ("Tempo.compute", True, tempo, True), ("MeanFieldTempo.compute", True, meanfield, True),
             ("Tempo.compute(spectral density fails)", True, tempo_sd, [1, 31, 800, 2500]), ("GibbsTempo.compute(spectral density fails)", True, gibbs_sd, [1, 31, 500, 1500]),
             ("compute_correlations_nt", True, corr_nt, True),
@@ -475,6 +490,12 @@ try:
                 KEEP.compute(2 if mode == "tebd-threads" else 4, progress_type="bar")
             except IndexError:
                 pass
+            raise Boom()
+        elif mode == "gibbs-again":
+            KEEP = oqupy.GibbsTempo(oqupy.System(0.3 * oqupy.operators.sigma("x")), oqupy.Bath(np.diag([1.0, -0.5]), oqupy.PowerLawSD(alpha=0.1, zeta=1, cutoff=3.0,
+                                    cutoff_type="exponential", temperature=0.7)), oqupy.GibbsParameters(n_steps=5, epsrel=1e-6))
+            KEEP.compute(progress_type="bar")
+            KEEP.compute(progress_type="bar")
             raise Boom()
         elif mode in ("meanfield-many", "meanfield-many-fail"):
             # mean-field TEMPO with several species, returning / failing in the field equation; the objects stay referenced
@@ -637,14 +658,14 @@ def run(chk):
                 balanced = log.count("enter") == log.count("exit")
                 if not balanced:
                     chk.fail("exit-skipped:" + name,
-                             f"{name}: a user callable raises (evaluation {k}); the progress object is entered {log.count('enter')}x but exited {log.count('exit')}x", info)
+                             f"{name}: {'the calls return normally' if k is None else f'a user callable raises (evaluation {k})'}; the progress object is entered {log.count('enter')}x but exited {log.count('exit')}x", info)
                 if k is not None and not raised:
                     chk.count("failure_not_reached")
     finally:
         outil.PROGRESS_DICT.pop("rec", None)
 
     # ---- (iv) runtime: real Timer threads in a child interpreter ---------------------------
-    for mode in ["tempo", "dynamics", "brokenstream", "tebd-threads", "tebd-threads-fail", "meanfield-many", "meanfield-many-fail"] + ["stress"] * (3 if thorough else 1):
+    for mode in ["tempo", "dynamics", "brokenstream", "tebd-threads", "tebd-threads-fail", "meanfield-many", "meanfield-many-fail", "gibbs-again"] + ["stress"] * (3 if thorough else 1):
         alive, grew, err = run_child(mode, chk.seed)
         chk.search_cases += 1
         info = {"kind": "runtime", "mode": mode, "threads_alive": alive, "output_grew": grew}
@@ -655,7 +676,7 @@ def run(chk):
             key = {"tempo": "thread-left:Tempo.compute", "dynamics": "exit-skipped:compute_dynamics", "stress": "timer-race",
                    "brokenstream": "thread-left:failing-output-stream", "tebd-threads": "thread-left:PtTebd-multithread",
                    "tebd-threads-fail": "thread-left:PtTebd-multithread", "meanfield-many": "thread-left:MeanFieldTempo-several-species",
-                   "meanfield-many-fail": "thread-left:MeanFieldTempo-several-species"}[mode]
+                   "meanfield-many-fail": "thread-left:MeanFieldTempo-several-species", "gibbs-again": "thread-left:GibbsTempo-asked-again"}[mode]
             chk.fail(key, f"{mode}: {alive} thread(s) still alive after the call returned/raised; output grew by {grew} bytes afterwards", info)
 
     vals, errs = run_cases("C19", HEADER, exprs, chunk=400)
